@@ -1,0 +1,39 @@
+//go:build verif
+
+package rhp
+
+// Verification hooks for the binary codecs (properties C11/C10 of the /verif
+// framework). This file only re-exports unexported types; it adds no
+// behaviour and is compiled only with `-tags verif`.
+
+import "go.sia.tech/core/types"
+
+// VerifNewLoopKeyExchangeRequest returns a new loopKeyExchangeRequest with the given fields.
+func VerifNewLoopKeyExchangeRequest(pk [32]byte, ciphers []types.Specifier) ProtocolObject {
+	return &loopKeyExchangeRequest{PublicKey: pk, Ciphers: ciphers}
+}
+
+// VerifLoopKeyExchangeRequestFields returns the fields of a loopKeyExchangeRequest.
+func VerifLoopKeyExchangeRequestFields(o ProtocolObject) ([32]byte, []types.Specifier) {
+	r := o.(*loopKeyExchangeRequest)
+	return r.PublicKey, r.Ciphers
+}
+
+// VerifNewLoopKeyExchangeResponse returns a new loopKeyExchangeResponse with the given fields.
+func VerifNewLoopKeyExchangeResponse(pk [32]byte, sig types.Signature, cipher types.Specifier) ProtocolObject {
+	return &loopKeyExchangeResponse{PublicKey: pk, Signature: sig, Cipher: cipher}
+}
+
+// VerifLoopKeyExchangeResponseFields returns the fields of a loopKeyExchangeResponse.
+func VerifLoopKeyExchangeResponseFields(o ProtocolObject) ([32]byte, types.Signature, types.Specifier) {
+	r := o.(*loopKeyExchangeResponse)
+	return r.PublicKey, r.Signature, r.Cipher
+}
+
+// VerifNewRPCResponse returns an rpcResponse wrapping err or data.
+func VerifNewRPCResponse(err *RPCError, data ProtocolObject) ProtocolObject {
+	return &rpcResponse{err, data}
+}
+
+// VerifRPCResponseErr returns the error of an rpcResponse.
+func VerifRPCResponseErr(o ProtocolObject) *RPCError { return o.(*rpcResponse).err }
